@@ -290,6 +290,33 @@ def run_small_nanos(ctx, mon):
                     mon.check_duration(r, exp, case, nm)
 
 
+def run_float_ops(ctx, mon):
+    """Float operands are outside the integer model, but whatever Duration an operation returns must be a normal value inside the range
+    (normalised day/nanosecond split, equal and hash-equal to the value built from its own nanosecond total)."""
+    from pyoda_time import Duration
+    rng = ctx.rng
+    vals = [0, 1, 999, NS_DAY - 1, NS_DAY, NS_DAY + 1, 20 * 3600 * 10**9, 12 * 3600 * 10**9, -1, -NS_DAY, -20 * 3600 * 10**9, 10**15 + 7] + [rng.randrange(NS_DAY) for _ in range(20)] + \
+           [rng.randint(-10**18, 10**18) for _ in range(20)]
+    fl = [0.5, 0.25, 0.1, 1.0, 1.5, 2.0, 3.0, 1e-3, 1e-6, 3.7, -0.5, -2.0, 1e9, 7.0, 0.3333333333333333, 86400.0]
+    for a in vals:
+        da = Duration.from_nanoseconds(a)
+        for f in fl + [rng.random() * 4 for _ in range(3)]:
+            for nm, fn, approx in (("truediv-float", lambda: da / f, a / f), ("mul-float", lambda: da * f, a * f), ("rmul-float", lambda: f * da, a * f), ("divide-float", lambda: Duration.divide(da, f), a / f)):
+                case = {"kind": "dur_float", "a": a, "f": f, "op": nm}
+                ctx.count("dur_float_ops"); ctx.key(("float", nm, _cls(a), f < 1, abs(approx) >= NS_DAY))
+                try:
+                    r = fn()
+                except (ValueError, OverflowError) as e:
+                    ctx.exc(e); continue
+                except Exception as e:  # noqa: BLE001
+                    ctx.exc(e); ctx.V(f"C03:{nm}:raised:{type(e).__name__}", f"Duration({a}) {nm} {f!r} raised {e!r}", case, repr(e)); continue
+                tot = r.to_nanoseconds()
+                if abs(tot - approx) > max(2.0, abs(approx) * 1e-9):
+                    ctx.V(f"C03:{nm}:value", f"Duration({a}) {nm} {f!r} = {tot} ns, expected about {approx!r}", case, tot, approx)
+                else:
+                    mon.check_duration(r, tot, case, nm)
+
+
 def run_dur_muldiv(ctx, mon):
     from pyoda_time import Duration
     rng = ctx.rng
@@ -483,6 +510,8 @@ def run(ctx, shard):
     PARTS[shard["part"]](ctx, mon)
     if shard["part"] == "dur_ops":
         run_small_nanos(ctx, mon)
+    if shard["part"] == "dur_muldiv":
+        run_float_ops(ctx, mon)
     # contract evaluations happen in every shard that performs arithmetic; factory/muldiv shards may have none
     ctx.counters.setdefault("contract_evals", 0)
 
@@ -503,6 +532,10 @@ def replay(ctx, case):
             else:
                 mon.check_duration(r, want, case, f"from_{name}")
         _call(ctx, lambda: getattr(Duration, "from_" + name)(n), inr, case, f"from_{name}", ok)
+    elif k == "dur_float":
+        da = Duration.from_nanoseconds(case["a"]); f = case["f"]
+        r = {"truediv-float": lambda: da / f, "mul-float": lambda: da * f, "rmul-float": lambda: f * da, "divide-float": lambda: Duration.divide(da, f)}[case["op"]]()
+        mon.check_duration(r, r.to_nanoseconds(), case, case["op"])
     elif k == "dur_small":
         mon.check_duration(getattr(Duration.from_nanoseconds(case["a"]), case["op"])(case["small"]), case["a"] + (case["small"] if "plus" in case["op"] else -case["small"]), case, case["op"])
     elif k == "dur_value":
